@@ -379,7 +379,7 @@ fn gen_sc(rng: &mut Rng) -> ScSpec {
 
 pub fn gen(tier: &str, rng: &mut Rng, out: &mut Vec<String>) {
     let thorough = tier == "thorough";
-    let nhist = if thorough { 60000 } else { 4500 };
+    let nhist = if thorough { 60000 } else { 8000 };
     for i in 0..nhist {
         let sc = gen_sc(rng);
         let k = 1 + rng.below(4);
@@ -389,12 +389,12 @@ pub fn gen(tier: &str, rng: &mut Rng, out: &mut Vec<String>) {
         let calls: Vec<String> = (0..ncalls).map(|_| gen_call(rng, &sc, k, maxlen)).collect();
         out.push(format!("{} kw:{}:{} {} {}", gen_cap(rng), k, w, sc.tokens(), calls.join(";")));
     }
-    // budget guard: disjoint alphabets (no k-mer match: the band is the whole matrix)
-    //   2300 x 2300: 2301² = 5 294 601 cells > 5 000 000 → the sentinel is the only accepted answer
-    //   2200 x 2200: 2201² = 4 844 401 cells           → a real alignment (validity and recomputed score checked)
+    // budget guard: disjoint alphabets (no k-mer match: the band is the whole matrix), at the exact boundary
+    //   1999 x 2500: 2000 * 2501 = 5 002 000 cells > 5 000 000 → the sentinel is the only accepted answer
+    //   1999 x 2499: 2000 * 2500 = 5 000 000 cells (not >)     → a real alignment (validity and recomputed score)
     let unit = "sc:-5:-1:0:0:0:0 w:4143:1,-1,-1,1";
-    out.push(format!("cap:0:0 kw:{}:{} {} big,-,-,2300,2300", 1 + rng.below(4), rng.below(5), unit));
-    out.push(format!("cap:0:0 kw:{}:{} {} big,-,-,2200,2200", 1 + rng.below(4), rng.below(5), unit));
+    out.push(format!("cap:0:0 kw:{}:{} {} big,-,-,1999,2500", 1 + rng.below(4), rng.below(5), unit));
+    out.push(format!("cap:0:0 kw:{}:{} {} big,-,-,1999,2499", 1 + rng.below(4), rng.below(5), unit));
     if thorough {
         // exhaustive small scope: x, y over {A,C} up to length 5, k <= 2, w <= 2, 6 schemes, entry
         // points in rotation; one x against every y per history
